@@ -20,4 +20,5 @@ func runC01(c *Ctx) {
 	if n < 15 {
 		c.Unresolved("C01.T1", "fewer than 15 kind-dispatch switches found")
 	}
+	hideObsoleteAtReaderSeqNum(c, "C01.V1")
 }
